@@ -177,6 +177,8 @@ def as_bool(v):
         return z3.BoolVal(bool(v))
     if v is None:
         return z3.BoolVal(False)
+    if isinstance(v, Record):
+        return z3.BoolVal(True)          # an object without __bool__ / __len__ is truthy
     raise PyOutOfReach('truthiness of %r' % (v,))
 
 
@@ -352,6 +354,13 @@ class PyExec:
                 env[t.value.id] = SymDict(z3.Store(d.arr, as_int(key), v.i), 'int')
             else:
                 raise PyOutOfReach('dict store of an untracked value')
+        elif isinstance(t, ast.Attribute) and isinstance(t.value, ast.Name) and isinstance(env.get(t.value.id), Record):
+            # attribute store on a record-modelled object: functional update of the binding (callers must not rely on aliases)
+            r = env[t.value.id]
+            r2 = TupleRec(r.fields, r.order) if isinstance(r, TupleRec) else Record(r.fields)
+            r2.fields = dict(r.fields)
+            r2.fields[t.attr] = v
+            env[t.value.id] = r2
         elif isinstance(t, ast.Subscript) and isinstance(t.value, ast.Name) and isinstance(env.get(t.value.id), Record):
             key = ast.literal_eval(t.slice)
             r = env[t.value.id]
